@@ -304,9 +304,46 @@ func c08Saturated(ctx *Ctx) {
 	ctx.Count("saturated-connection")
 }
 
+// slowCache: the proxy's prepared cache (a public configuration interface) with a Store that takes a while, as a cache
+// shared between processes would.  A client must not be able to use a statement id before the proxy can recover it.
+type slowCache struct {
+	inner proxycore.PreparedCache
+	delay time.Duration
+}
+
+func (c *slowCache) Store(id string, e *proxycore.PreparedEntry) {
+	time.Sleep(c.delay)
+	c.inner.Store(id, e)
+}
+func (c *slowCache) Load(id string) (*proxycore.PreparedEntry, bool) { return c.inner.Load(id) }
+
+// c08SlowCache: PREPARE on one host, then EXECUTEs at once, which the round robin sends to hosts that never saw the
+// statement.
+func c08SlowCache(ctx *Ctx) {
+	inner, err := proxy.NewDefaultPreparedCache(1000)
+	if err != nil {
+		panic(err)
+	}
+	hs := []int{1, 2, 3}
+	e := newC08Env(ctx, hs, hs, func(c *proxy.Config) { c.PreparedCache = &slowCache{inner: inner, delay: 120 * time.Millisecond} })
+	defer e.close()
+	e.addClient(4, "")
+	e.addClient(4, "")
+	e.calibrate()
+	for _, q := range c08Stmts[:ctx.Scale(2, 5)] {
+		if !e.prepare(1, q) {
+			continue
+		}
+		for k := 0; k < 3; k++ {
+			e.execute(1, q, k == 2, "execute:right-after-prepare-with-a-slow-cache")
+		}
+	}
+}
+
 func genC08(ctx *Ctx) {
 	r := ctx.Rng
 	c08Saturated(ctx)
+	c08SlowCache(ctx)
 	late := make(chan func(), 1)
 	go func() { late <- c08LateHost(ctx) }()
 
